@@ -328,8 +328,8 @@ Lemma unstarted_reported fl r s : in_sess s = true ->
 Proof.
   intros Hs. cbv zeta. c_handle_msg. c_send_sess_term.
   unfold check_sess_term, is_sess_idle, raise, ok, send_msg; opq. rewrite Hs. split.
-  - p_split; reflexivity.
-  - p_split; unfold state_trace, close_trace; p_split;
+  - p_split; unfold close_pend; p_split; reflexivity.
+  - p_split; unfold state_trace, close_trace; p_split; cbn [flush_events map app];
       first [ exists [], []; cbn [app]; rewrite ?app_nil_r, <- ?app_assoc; reflexivity
             | exists [], [EClosed]; cbn [app]; rewrite ?app_nil_r, <- ?app_assoc; reflexivity
             | exists [ESig SigState [PStr ST_ENDING]], []; cbn [app]; rewrite ?app_nil_r, <- ?app_assoc; reflexivity
